@@ -12,7 +12,7 @@ SYMS = ['BTC-USDT', 'ETH-USDT']
 def session(draw, minutes=(60, 200), kinds=('futures', 'spot'), tfs=('1m', '3m', '5m', '15m'), data_tfs=('3m', '5m', '15m', '30m', '1h'),
             max_symbols=2, max_data=2, warmup=(False, True), fast=(False, True), modes=('cross',), leverages=(1, 2, 5, 10, 25),
             fees=(0.0, 0.0004, 0.001, 0.0075), structural=True, program=None, same_tf=False, align_len=False, min_steps=8, min_symbols=1,
-            data_only_symbol=False):
+            data_only_symbol=False, candle_opts=None):
     kind = draw(st.sampled_from(kinds))
     futures = kind == 'futures'
     nsym = draw(st.integers(min_symbols, max_symbols))
@@ -42,7 +42,7 @@ def session(draw, minutes=(60, 200), kinds=('futures', 'spot'), tfs=('1m', '3m',
                mode=draw(st.sampled_from(modes)) if futures else 'cross', warm_up=0)
     cands, scripts, ticks = {}, {}, {}
     for s in syms:
-        c = draw(gc.structural(n) if structural else gc.prng(n))
+        c = draw(gc.structural(n, **(candle_opts or {})) if structural else gc.prng(n))
         rows = gc.expand(c)
         cands[s] = rows
         ticks[s] = c['tick']
@@ -53,7 +53,7 @@ def session(draw, minutes=(60, 200), kinds=('futures', 'spot'), tfs=('1m', '3m',
         prog = program or {}
         scripts[s] = draw(gp.script(min(steps, 60), futures, c['tick'], unit, **prog))
     if extra_sym:
-        c = draw(gc.structural(n) if structural else gc.prng(n))
+        c = draw(gc.structural(n, **(candle_opts or {})) if structural else gc.prng(n))
         cands[extra_sym] = gc.expand(c)
         ticks[extra_sym] = c['tick']
         syms = syms + [extra_sym]
